@@ -25,7 +25,7 @@ ASSUMPTIONS = ["out of the stated domain and not generated: discriminants arrivi
                "fragments, values outside the repr type under allow(overflowing_literals), raw identifiers"]
 
 PROFILE = S.profile(renames=0.15, dups=0.0, attrs=0.6, cfg_off=0.15, literals="mixed",
-                    anchors=["min", "min", "max", "max", "zero", "neg", "rand"],
+                    anchors=["min", "min", "max", "max", "zero", "neg", "rand", "narrow_max", "narrow_min"],
                     sizes=[("small", 80), ("medium", 12), ("large", 7), ("full8", 1)])
 
 
